@@ -426,7 +426,7 @@ func cmdCheck(args []string) int {
 	known := loadKnown()
 
 	// fan out
-	workers := runtime.NumCPU()
+	workers := numWorkers()
 	var mu sync.Mutex
 	var all []*result
 	var infra []string
@@ -800,7 +800,7 @@ func cmdSelftest(args []string) int {
 	var mu sync.Mutex
 	digests := map[uint64]map[string]int{}
 	var wg sync.WaitGroup
-	sem := make(chan struct{}, runtime.NumCPU())
+	sem := make(chan struct{}, numWorkers())
 	var errs []string
 	for i := 0; i < f.seeds; i++ {
 		seed := seedFor(f.seed, i)
@@ -843,3 +843,11 @@ func cmdSelftest(args []string) int {
 }
 
 var _ = errors.New
+
+// numWorkers is the number of parallel worker processes: all cores unless VERIF_WORKERS says otherwise.
+func numWorkers() int {
+	if v, err := strconv.Atoi(os.Getenv("VERIF_WORKERS")); err == nil && v > 0 {
+		return v
+	}
+	return runtime.NumCPU()
+}
